@@ -148,6 +148,38 @@ void harness_writev(void)
 	WITNESS_END();
 }
 
+/* ================================================================== C10.writev3_step : a frame gathered from three chunks of different lengths
+ * (the websocket upgrade answer is gathered from five to seven) */
+#ifndef L2
+#define L2 1
+#endif
+void harness_writev3(void)
+{
+	struct buffered_socket *bs = &BS;
+	size_t pend; any_pending(bs, &pend);
+	uint8_t f0[L0], f1[L1], f2[L2]; size_t l0 = nd_size(), l1 = nd_size(), l2 = nd_size();
+	__CPROVER_assume(l0 <= L0 && l1 <= L1 && l2 <= L2);
+	for (int i = 0; i < L0; i++) f0[i] = nd_u8();
+	for (int i = 0; i < L1; i++) f1[i] = nd_u8();
+	for (int i = 0; i < L2; i++) f2[i] = nd_u8();
+	size_t total = l0 + l1 + l2;
+	TRACK = nd_size(); __CPROVER_assume(TRACK < pend + total);
+	uint8_t want = TRACK < pend ? bs->write_buffer[TRACK] : (TRACK < pend + l0 ? f0[TRACK - pend] : (TRACK < pend + l0 + l1 ? f1[TRACK - pend - l0] : f2[TRACK - pend - l0 - l1]));
+	struct socket_io_vector iov[3] = {{f0, l0}, {f1, l1}, {f2, l2}};
+	int r = buffered_socket_writev(bs, iov, 3);
+	CHECK(bs->to_write <= W, "C10.pending_count_in_bounds");
+	if (r == 0) {
+		CHECK(kpos + bs->to_write == pend + total, "C10.accepted_frame_fully_sent_or_queued");
+		uint8_t got = TRACK < kpos ? kbyte : bs->write_buffer[TRACK - kpos];
+		CHECK(got == want, "C10.stream_is_old_pending_then_frame");
+		if (bs->to_write > 0 && kpos > pend + l0) REACH("short_write_ends_behind_the_first_chunk");
+	} else if (!khard) {
+		CHECK(kpos + bs->to_write <= pend, "C10.refused_frame_left_no_bytes");
+		REACH("refused");
+	}
+	WITNESS_END();
+}
+
 /* ================================================================== C10.flush_step : writability event */
 void harness_flush(void)
 {
